@@ -207,9 +207,30 @@ def delta_binary_packed(vals, bits=64, block=128, minis=4):
     return bytes(out)
 
 
-def delta_length_byte_array(vals):
+LEN_PATCH = None        # fault injection: {"stream": "length" | "prefix" | "suffix", "cls": ...} (see _patch_lens)
+
+
+def _patch_lens(lens, stream):
+    """lie about a length stream of a delta string page (the bytes that follow stay as they are)"""
+    if not LEN_PATCH or LEN_PATCH["stream"] != stream or len(lens) < 3:
+        return lens
+    l, cls = list(lens), LEN_PATCH["cls"]
+    if cls == "neg_compensated":        # a negative length made up for by the next one: the sum is unchanged
+        k = l[1] + 5
+        l[1] -= k
+        l[2] += k
+    elif cls == "neg":
+        l[1] = -3
+    elif cls == "huge":
+        l[0] = 2 ** 31 - 1
+    elif cls == "plus1_first":
+        l[0] += 1
+    return l
+
+
+def delta_length_byte_array(vals, stream="length"):
     bs = [v.encode() if isinstance(v, str) else bytes(v) for v in vals]
-    return delta_binary_packed([len(b) for b in bs], 32) + b"".join(bs)
+    return delta_binary_packed(_patch_lens([len(b) for b in bs], stream), 32) + b"".join(bs)
 
 
 def delta_byte_array(vals):
@@ -222,7 +243,7 @@ def delta_byte_array(vals):
         prefix.append(k)
         suffix.append(b[k:])
         prev = b
-    return delta_binary_packed(prefix, 32) + delta_length_byte_array(suffix)
+    return delta_binary_packed(_patch_lens(prefix, "prefix"), 32) + delta_length_byte_array(suffix, "suffix")
 
 
 def byte_stream_split(ptype, vals):
@@ -335,8 +356,9 @@ def write(desc):
     lmode = desc.get("level_runs", "rle")
     lies = desc.get("lies", {})
     venc_mode = desc.get("value_encoding", "plain")      # "plain" | "delta" | "bss" (non-dictionary pages)
-    global JUNK_WIDTHS
+    global JUNK_WIDTHS, LEN_PATCH
     JUNK_WIDTHS = bool(desc.get("delta_junk_widths"))
+    LEN_PATCH = lies.get("delta.len_patch")
     buf = io.BytesIO()
     buf.write(b"PAR1")
     regions = {"magic_head": (0, 4)}
